@@ -241,6 +241,7 @@ class Options:
     unroll: int = 3
     record_cond_calls: bool = True
     fork_ifexp: bool = True  # fork on a conditional expression assigned / returned (else keep it symbolic)
+    stateful_extra: frozenset = frozenset()  # locals a rule wants to see as a chain of assignments whether or not the function happens to mutate them in place
 
 
 class Enumerator:
@@ -369,6 +370,7 @@ class Enumerator:
                         b = b.value
                     if isinstance(b, ast.Name):
                         out.add(b.id)
+        out |= set(self.o.stateful_extra)
         out.discard("self")
         return out
 
